@@ -276,6 +276,7 @@ func (w *World) routerVC(rt *routerType, prop string) (res *FuncResult) {
 		subs = append(subs, &SubGoal{Prefix: len(vc.script), Cond: and(out.cond, is), Goal: and(goals...)})
 		labels = append(labels, mi.Name)
 	}
+	vc.obls = append(vc.obls, w.routerExpandObligations(rt, prop)...)
 	vc.obligeSubs("post", "routes", subs, false, fn.Pos(), []string{prop})
 	o := vc.obls[len(vc.obls)-1]
 	o.SubLabels = labels
@@ -303,4 +304,37 @@ func (w *World) routerObligations(run *checkRun) {
 		nf += len(rt.fields)
 	}
 	run.notes = append(run.notes, fmt.Sprintf("schema routers: %d container types with %d message-holding fields, each checked against all %d message types of the profile; the expected routing is read off the container struct types (go/types)", len(rts), nf, len(w.profile().Msgs)))
+}
+
+// routerExpandObligations: a message type with component fields is expanded
+// before it is stored: the router of every container that holds it calls its
+// expandComponents (decided on the SSA of the router).
+func (w *World) routerExpandObligations(rt *routerType, prop string) []*Obligation {
+	var out []*Obligation
+	fn := rt.fn
+	for _, f := range rt.fields {
+		if _, has := w.expandAssigned(f.msg); !has {
+			continue
+		}
+		called := false
+		for _, b := range fn.Blocks {
+			for _, instr := range b.Instrs {
+				if call, ok := instr.(ssa.CallInstruction); ok {
+					if cf := call.Common().StaticCallee(); cf != nil && cf.Name() == "expandComponents" && cf.Signature.Recv() != nil {
+						if p, ok := cf.Signature.Recv().Type().(*types.Pointer); ok && types.Identical(p.Elem(), f.msg) {
+							called = true
+						}
+					}
+				}
+			}
+		}
+		o := &Obligation{Name: fmt.Sprintf("%s#expands.%s", fn.String(), f.msg.Obj().Name()), Kind: "dispatch", Fn: fn.String(), Props: []string{prop}, Expect: "unsat", Solver: "ground", Status: "unsat", Goal: "true", Cond: "true"}
+		if !called {
+			o.Status = "sat"
+			o.Output = fmt.Sprintf("%s holds %s, whose component fields must be expanded, but never calls (*%s).expandComponents", rt.named.Obj().Name(), f.msg.Obj().Name(), f.msg.Obj().Name())
+			o.Model = o.Output
+		}
+		out = append(out, o)
+	}
+	return out
 }
